@@ -17,7 +17,7 @@ extern "C" void harness_c07_trees()
     Recipe r;
     r.root = g.gen(r, (int)verif_param("depth", 2), "t");
     ve::Env env = ve::std_env();
-    RCP<const Basic> e = build(r, r.root);
+    RCP<const Basic> e = build_or_skip(r, r.root);
     Dual ref = eval(r, r.root, env, "");
     try {
         verif_assert_req(ve::ev(*e, env), ref.v, "the constructed expression has the value of the operations applied to the operand values");
